@@ -29,6 +29,38 @@ def _uint_head(f):
     return h in INT_BITS and h not in SIGNED
 
 
+def _bitop(o, p, q):
+    if o == "BitAnd":
+        if p == 0 or q == 0:
+            return 0
+        if p == 1:
+            return q
+        if q == 1:
+            return p
+        if p == q:
+            return p
+    elif o == "BitOr":
+        if p == 1 or q == 1:
+            return 1
+        if p == 0:
+            return q
+        if q == 0:
+            return p
+        if p == q:
+            return p
+    else:
+        if p == 0:
+            return q
+        if q == 0:
+            return p
+        if p == q:
+            return 0
+        if p == 1 and q == 1:
+            return 0
+    x, y = sorted((p, q), key=repr)
+    return ("op", o, x, y)
+
+
 class Prover:
     def __init__(self, an):
         self.an = an
@@ -160,6 +192,12 @@ class Prover:
             us = [self.ub(v, facts, d + 1) for v in _arms(t)]
             if us and all(u is not None for u in us):
                 upd(max(us))
+        if op == "call" and t.args[0].endswith("ParseAt::size_for"):
+            upd(self.an.prog.size_for_upper_bound(t))
+        if op in ("bin", "cast") and self.unsigned(t) and d == 0:
+            bv = self.bits(t)
+            if bv is not None:
+                upd(sum(1 << i for i, p in enumerate(bv) if p != 0))      # every bit not known to be 0 set
         return best
 
     def lb(self, t, facts, d=0):
@@ -205,6 +243,11 @@ class Prover:
             if frm in INT_BITS and frm not in SIGNED and to in INT_BITS:
                 if INT_BITS[frm] <= (32 if to in PTR_SIZED else INT_BITS[to]):
                     upd(self.lb(t.args[1], facts, d + 1))
+                else:
+                    # a narrowing cast of a value known to fit keeps the value
+                    u_ = self.ub(t.args[1], facts, d + 1)
+                    if u_ is not None and tmax(to, True) is not None and 0 <= u_ <= tmax(to, True):
+                        upd(self.lb(t.args[1], facts, d + 1))
         elif op == "phi":
             ops = self.an.phi_ops.get(t)
             if ops:
@@ -217,9 +260,14 @@ class Prover:
                 upd(min(ls))
         elif op == "proj" and t.args[0].op == "bin" and t.args[0].args[0].endswith("WithOverflow") and t.args[1][:2] == ("f", 0):
             o, a, b, ty2 = t.args[0].args
-            if (o.startswith("Add") or o.startswith("Mul")) and ("false", T.proj(t.args[0], ("f", 1, None))) in facts:
+            if o.startswith("Add") or o.startswith("Mul"):
                 la, lbb = self.lb(a, facts, d + 1), self.lb(b, facts, d + 1)
-                if la is not None and lbb is not None:
+                ua_, ub_ = self.ub(a, facts, d + 1), self.ub(b, facts, d + 1)
+                lim = tmax(ty2, True)
+                # known not to have wrapped: by the recorded flag, or because the largest possible result fits
+                fits = (ua_ is not None and ub_ is not None and lim is not None and la is not None and lbb is not None and la >= 0 and lbb >= 0
+                        and (ua_ + ub_ if o.startswith("Add") else ua_ * ub_) <= lim)
+                if (("false", T.proj(t.args[0], ("f", 1, None))) in facts or fits) and la is not None and lbb is not None:
                     upd(la + lbb if o.startswith("Add") else la * lbb)
         elif op == "call":
             f = t.args[0]
@@ -329,6 +377,13 @@ class Prover:
         ua, lb_ = self.ub(a, facts), self.lb(b, facts)
         if ua is not None and lb_ is not None and ua <= lb_:
             return True
+        # (r.len() as u64) <= b  when  (r.end as u64) <= b :  the length of a range is at most its end
+        if a.op == "cast" and a.args[0] == "IntToInt" and a.args[1].op == "call" and a.args[1].args[0] == "iter::ExactSizeIterator::len":
+            r = a.args[1].args[2][0]
+            r = r.args[0] if r.op == "refval" else (T.deref(r) if r.op == "param" else r)
+            e = T.cast("IntToInt", T.proj(r, ("f", 1, "end")), a.args[2], a.args[3])      # only a Range has a field 1 called `end`
+            if self._fact_cmp(facts, "Lt", b, e, False) or self._fact_cmp(facts, "Le", e, b, True):
+                return True
         # hi <= s.len() on a path where s.get(lo..hi) / s.get(..hi) succeeded
         if b.op == "len":
             for f in facts:
@@ -337,6 +392,65 @@ class Prover:
                     if r.op == "agg" and r.args[1] in ("ops::Range", "ops::RangeTo") and r.args[4][-1] is a:
                         return True
         return False
+
+    # ------------------------------------------------------------------ bit-level values
+    def bits(self, t, d=0):
+        """The value of an integer term as a list of bit descriptors, least significant first: 0, 1, (atom, i) = bit i of an opaque
+        term, or ("op", o, x, y) for an uninterpreted combination.  Exact for constants, casts, shifts by constants and bitwise
+        operations; anything else is an atom.  None when the width is unknown."""
+        ty = self.type_of(t)
+        if ty == "bool":
+            return None
+        n = INT_BITS.get(ty)
+        if n is None or d > 24:
+            return None
+        if t.op == "const" and isinstance(t.args[1], int):
+            v = t.args[1] % (1 << n)
+            return [(v >> i) & 1 for i in range(n)]
+        if t.op == "cast" and t.args[0] == "IntToInt":
+            inner = self.bits(t.args[1], d + 1)
+            frm = t.args[2]
+            if inner is not None and frm in INT_BITS:
+                if len(inner) >= n:
+                    return inner[:n]
+                pad = inner[-1] if frm in SIGNED else 0
+                return inner + [pad] * (n - len(inner))
+        if t.op == "call" and t.args[0] == "convert::From::from" and len(t.args[2]) == 1:
+            inner = self.bits(t.args[2][0], d + 1)
+            fty = self.type_of(t.args[2][0])
+            if inner is not None and fty in INT_BITS and len(inner) <= n:
+                pad = inner[-1] if fty in SIGNED else 0
+                return inner + [pad] * (n - len(inner))
+        if t.op == "bin":
+            o, x, y = t.args[0], t.args[1], t.args[2]
+            if o in ("Shl", "Shr", "ShlUnchecked", "ShrUnchecked") and y.op == "const" and isinstance(y.args[1], int) and 0 <= y.args[1] < n:
+                bx = self.bits(x, d + 1)
+                if bx is not None and len(bx) == n:
+                    c = y.args[1]
+                    if o.startswith("Shl"):
+                        return [0] * c + bx[: n - c]
+                    pad = bx[-1] if ty in SIGNED else 0
+                    return bx[c:] + [pad] * c
+            if o in ("BitAnd", "BitOr", "BitXor"):
+                bx, by = self.bits(x, d + 1), self.bits(y, d + 1)
+                if bx is not None and by is not None and len(bx) == len(by) == n:
+                    return [_bitop(o, p, q) for p, q in zip(bx, by)]
+        if t.op == "un" and t.args[0] == "Not":
+            bx = self.bits(t.args[1], d + 1)
+            if bx is not None:
+                return [(1 - p) if p in (0, 1) else ("not", p) for p in bx]
+        return [(t, i) for i in range(n)]
+
+    def bits_eq(self, a, b):
+        """True / False / None: are the two integer terms equal as bit vectors for every value of their atoms"""
+        ba, bb = self.bits(a), self.bits(b)
+        if ba is None or bb is None or len(ba) != len(bb):
+            return None
+        if ba == bb:
+            return True
+        if any(p in (0, 1) and q in (0, 1) and p != q for p, q in zip(ba, bb)):
+            return False
+        return None
 
     # ------------------------------------------------------------------ deciding a comparison
     def arith(self, t, facts):
@@ -349,6 +463,17 @@ class Prover:
                 if t2.op != "bin" or t2.args[0] != o:
                     return t2
                 return t
+        if t.op == "len":
+            # the length of a successfully taken sub-slice s.get(a..b) / s.get_bytes(a..b) is b - a  (C03 establishes get_bytes = get)
+            x = t.args[0]
+            while x.op in ("refval", "deref"):
+                x = x.args[0]
+            if x.op == "payload" and x.args[1] in ("Some", "Ok") and x.args[0].op == "call" and len(x.args[0].args[2]) == 2 \
+                    and (x.args[0].args[0] == "[T]::get" or x.args[0].args[0].endswith("parse::ReadBytesExt<'data>>::get_bytes")
+                         or x.args[0].args[0] == "parse::ReadBytesExt::get_bytes"):
+                r = x.args[0].args[2][1]
+                if r.op == "agg" and r.args[1] == "ops::Range":
+                    return self.arith(Term("bin", "Sub", r.args[4][1], r.args[4][0], "usize"), facts)
         if t.op == "bin" and t.args[0] == "Sub":
             x, y = t.args[1], t.args[2]
             if x.op == "payload" and x.args[1] == "Some" and x.args[0].op == "call" and x.args[0].args[0].endswith("::checked_add") \
@@ -383,6 +508,9 @@ class Prover:
                 return True if self.le(a, b, facts) else (False if self.lt(b, a, facts) else None)
             same = a is b or (a.op == "const" and b.op == "const" and a.args[1] == b.args[1])
             diff = self.lt(a, b, facts) or self.lt(b, a, facts)
+            if not same and not diff:
+                be = self.bits_eq(a, b)
+                same, diff = be is True, be is False
             if same or diff:
                 return (o == "Eq") == bool(same)
         return None
